@@ -137,8 +137,18 @@ def _index_like(fb, g, o):
     if c is not None and call_is(c, ('re:::len$', 're:::ndim$')):
         return True
     og = g.origins(o)
-    return bool(og) and all(o2[0] in L.PURE_KINDS or o2[0] == 'len_of' or (o2[0] == 'call' and suffix_match(o2[1], ('re:Range<.*>::next$', 're:Iterator>::next$', 're:Rev<I> as .*>::next$', 're:Enumerate<I> as .*>::next$'))
-                                and not suffix_match(o2[1], ('re:slice::iter::Iter', 're:Copied', 're:Zip'))) for o2 in og)
+
+    def range_item(o2):
+        # item of an integer range iterator (possibly reversed): look at the receiver's concrete type
+        if o2[0] != 'call' or not suffix_match(o2[1], ('re:::next$',)):
+            return False
+        t = g.term(o2[2])
+        if t[0] != 'call' or not t[2]:
+            return False
+        root = prog._root_local(g, t[2][0])
+        ty = g.local_ty(root) if root is not None else ''
+        return 'core::ops::range::Range<' in ty and not re.search(r'slice::iter|IntoIter|Zip<|Copied<|Cloned<|Map<', ty)
+    return bool(og) and all(o2[0] in L.PURE_KINDS or o2[0] == 'len_of' or range_item(o2) for o2 in og)
 
 
 def unsafe_inventory(ctx, fb, T):
